@@ -19,6 +19,9 @@ type B struct {
 	A *Analysis
 	R *Registry
 	X *Extractor
+	// earlyExitsOK: FullScan is asked about a search loop — every index is visited unless the
+	// loop is left from inside an iteration (the caller decides what those exits mean)
+	earlyExitsOK bool
 }
 
 func NewB(a *Analysis, r *Registry) *B {
@@ -2678,11 +2681,22 @@ func (b *B) fullScanFrom(rule, construct, where string, fc *FC, idx, n *RF, maxF
 		return false
 	}
 	want := s.Cmp("<", idx, n)
+	if b.earlyExitsOK {
+		// a search loop may carry its hit test in the loop condition (`for k < n && a[k] == b[k]`):
+		// the other conjuncts are early exits
+		if ca := cond.SingleAtom(); ca != nil && ca.Name == "land" {
+			for _, arg := range ca.Args {
+				if arg.Equal(want) || b.X.EquivByCases(arg, want, 0) {
+					cond = want
+				}
+			}
+		}
+	}
 	if !(cond.Equal(want) || b.X.EquivByCases(cond, want, 0) || (len(fc.Assume) > 0 && b.X.EquivByCasesUnder(cond, want, fc.Assume))) {
 		b.R.Fail(rule, construct, where, "the loop runs while "+clip(cond.String(), 120)+", not while index < "+clip(n.String(), 60)+": not every element is visited")
 		return false
 	}
-	if msg := b.leftEarly(lfc, l, guard); msg != "" {
+	if msg := b.leftEarly(lfc, l, guard); msg != "" && !b.earlyExitsOK {
 		b.R.Fail(rule, construct, where, msg)
 		return false
 	}
